@@ -1,7 +1,7 @@
 """C15 — MPSC / SPSC / relaxed-MPSC queues: each item popped once, per-producer FIFO (structural part)."""
 from core import strip, is_field, order_ge, key_str, key_mentions
 from facts import AnalysisBroken
-from rules import (nodeset, ev, Unevaluable, atom_from, reach, ret_const, is_var_load, is_full_fence, is_compiler_fence, is_param_load)
+from rules import (check_init, nodeset, ev, Unevaluable, atom_from, reach, ret_const, is_var_load, is_full_fence, is_compiler_fence, is_param_load)
 
 EXPLANATION = (
     "Decides the two-step publication skeleton: a producer terminates its node (next = NULL) before the node can be reached "
@@ -201,3 +201,15 @@ def run(ctx):
                 if f.guarded(r, lambda leaf, pol: strip(leaf).k == "DeclRefExpr" and pol is True) is not None:
                     bad = bad or "a node is returned that is not the non-NULL result of a sub-queue pop"
     o.check(bad is None, "empty-pass table (1..3 producers)", bad, site=f.loc, construct="mpscr pop loop")
+    for name, qrec in (("mpsc_fifo_init", "mpsc_fifo"), ("spsc_fifo_init", "spsc_fifo")):
+        f = P.fn(name)
+        o = ctx.ob("init", f, "init allocates a zeroed stub node and makes it both head and tail", "head != tail or a stub with a stale next: the first pop walks into garbage")
+        ts, hs = f.stores_to(qrec, "tail"), f.stores_to(qrec, "head")
+        bad = None
+        if len(ts) != 1 or len(hs) != 1 or not f.calls("calloc"):
+            bad = "stub not calloc()ed / head or tail not set"
+        else:
+            hk = f.key(hs[0].value, True)
+            if not ((hk[0] == "f" and hk[2] == "tail") or hk == f.key(ts[0].value, True)):
+                bad = "head is not the node stored in tail"
+        o.check(bad is None, "head == tail == zeroed stub", bad, site=f.loc, construct="fifo init " + name)
